@@ -17,6 +17,7 @@ CONSTANTS
   ModernUnsub = FALSE
   Stepwise = FALSE
   Gates = FALSE
+  GateNames = {"inv", "usr", "put"}
   ClientFirst = TRUE
 INVARIANTS TypeOK NeverLost OnlyEntitled NoneWhenDisabled UpdatedExactlySubscribers Fresh ForgottenOnClose MapsOnlySessions
 CHECK_DEADLOCK FALSE
